@@ -51,7 +51,7 @@ def run(pid, tier):
     t0 = time.time()
     seed = common.seed()
     d = common.workdir(pid + '-pop')
-    mc = common.tlc('Population', cfg='MC_Population.cfg', workers=4, name=pid + '-mc', timeout=1800, coverage=True, xmx='8g')
+    mc = common.tlc('Population', cfg='MC_Population_6.cfg' if tier == 'thorough' else 'MC_Population.cfg', workers=8 if tier == 'thorough' else 4, name=pid + '-mc', timeout=3000, coverage=(tier != 'thorough'), xmx='12g')
     if mc.rc != 0 or mc.invariant_violated:
         raise ToolError('Population model violates its own properties: see work/tlc-%s-mc.log' % pid)
     dead = [a for a, (x, t) in mc.coverage().items() if t == 0 and a in ('Add', 'AddAll', 'Generation', 'Select')]
@@ -127,5 +127,5 @@ def run(pid, tier):
            'known_finding_hits': {k: len(v) for k, v in verdict.known_hits.items()}}
     common.write_evidence(pid, tier, 'model_checking', cov, time.time() - t0, len(verdict.violations),
                           ['fitness = pairs over {1..3}x{1..2}, compared lexicographically by a test objective; Elitism with the equal / same-first-component dedup rules through new_with_dedup (the default 5 % relative rule is not exercised); '
-                           'Rosomaxa: elite size 1-3, initial size 4, default network parameters, individuals kept apart in weight space; histories of 14 operations; the model is exhaustively checked only to depth 4'])
+                           'Rosomaxa: elite size 1-3, initial size 4, default network parameters, individuals kept apart in weight space; histories of 14 operations; the model is exhaustively checked to depth 4 (quick) / 6 (thorough, 9.8 M states)'])
     return rc
